@@ -385,6 +385,81 @@ def check_packet_streams(st, n):
     st.sample({'packets_per_connection': n, 'payload_lengths': lens}, cap=14)
 
 
+def traffic_problems(srv, kexnames=None):
+    """Decode everything the tool sent to a scripted server: framing, first packet is KEXINIT, every message is one the protocol
+    calls for at that point and is well formed.  -> [(signature, detail)]"""
+    import struct as _s
+    out = []
+    for r in srv.records:
+        types = []
+        for pk in r.get('packets_in', []):
+            types.append(pk['type'])
+            probs = [x for x in pk['problems'] if x != 'empty payload']
+            if probs:
+                out.append(('traffic:framing', {'conn': r['index'], 'problems': probs}))
+            payload = pk['payload']
+            try:
+                if pk['type'] == 20:
+                    wire.parse_kexinit(payload)
+                elif pk['type'] == 34:
+                    if len(payload) != 13:
+                        raise wire.WireError('GEX_REQUEST length %d' % len(payload))
+                    mn, pref, mx = _s.unpack('>III', payload[1:])
+                    if not (mn <= pref <= mx):
+                        out.append(('traffic:gex-request-not-ordered', {'request': [mn, pref, mx]}))
+                elif pk['type'] in (30, 32):
+                    rd = wire.Reader(payload[1:])
+                    body = rd.string()
+                    if not rd.done() or len(body) == 0:
+                        raise wire.WireError('KEX init body')
+                else:
+                    out.append(('traffic:unexpected-message-type', {'conn': r['index'], 'type': pk['type']}))
+            except wire.WireError as e:
+                out.append(('traffic:malformed-message:type-%s' % pk['type'], {'conn': r['index'], 'what': str(e), 'payload_head': payload[:24].hex()}))
+        if types and types[0] != 20:
+            out.append(('traffic:first-packet-not-kexinit', {'conn': r['index'], 'types': types}))
+        if r.get('client_banner') is not None and not r['client_banner'].startswith(b'SSH-'):
+            out.append(('traffic:bad-client-banner', {'banner': repr(r['client_banner'])}))
+    return out
+
+
+def fault_traffic_tasks(tier):
+    from mc import explore
+    from props import faultspace as F
+    out = []
+    for arch in ('B', 'C', 'D2'):
+        sc = F.scenario(arch, True)
+        base, plans = explore.first_level_tasks(sc, level='message' if tier == 'quick' else 'full', trunc_step=5)
+        out += [(arch, p, None) for p in plans]
+    for p in (0, 1, 2, 3, 4, 5, 7, 23):
+        for g in (0, 1, 2):
+            out.append(('D2', [], (p, g)))
+            out.append(('C2', [], (p, g)))
+    return out
+
+
+def work_fault_traffic(chunk, st):
+    from mc import explore
+    from props import faultspace as F
+    for arch, plan, degenerate in chunk:
+        if degenerate is not None:
+            p, g = degenerate
+            if arch == 'D2':
+                srv = F._srv_D2(g=g, p=p)
+            else:       # both group-exchange algorithms after a normal kex: the degenerate group is met in the GEX phase, reconnects follow
+                srv = P.Server(label='C2', kex=['curve25519-sha256', 'diffie-hellman-group-exchange-sha256', 'diffie-hellman-group-exchange-sha1'],
+                               key=['ssh-ed25519'], host_keys=P.standard_host_keys(['ssh-ed25519']), gex=P.GexPolicy([2048], P.ROUNDUP, g=g))
+                srv._gex_prime = lambda bits, p=p: p
+            res = H.audit(srv)
+        else:
+            res = explore.run_plan(F.scenario(arch, True), plan)
+            srv = res.peer
+        st.execution(res.world, outcome=('fault-traffic', arch, res.status), root=('fault-traffic', arch, plan, degenerate), nontrivial=('fault-traffic', arch, plan, degenerate))
+        for sig, d in traffic_problems(srv):
+            st.violation('fault-' + sig, dict(d, arch=arch, plan=plan, degenerate_group=degenerate))
+    st.sample({'fault_traffic': chunk[0][0], 'plan': chunk[0][1], 'degenerate_group': chunk[0][2]}, cap=18)
+
+
 def check_audit_traffic(st):
     """Every packet the tool sends during complete audits (initial handshake, host-key probes, group-exchange probes) is well
     framed and is exactly the message the protocol calls for at that point."""
@@ -484,6 +559,7 @@ def run(tier, seed):
     check_op_sequences(st, 4 if tier == 'quick' else 5)
     check_packet_streams(st, 2 if tier == 'quick' else 3)
     check_audit_traffic(st)
+    par.pmap(work_fault_traffic, fault_traffic_tasks(tier), stats=st)
     L = 1024 if tier == 'quick' else 4096
     par.pmap(work_framing, list(range(0, L + 1)), stats=st)
     validated = real_traffic(st)
